@@ -15,8 +15,13 @@ META = dict(
     evaluations_counter="cases",
     min={"weight_cases": 1000, "calibration_sequences": 100, "zero_weight_layers": 100,
          "activation_quantizations_judged": 200},
-    anchors=["tensor/qweight.py:quantize_weight", "calibrate.py:Calibration.__enter__",
-             "tensor/qactivation.py:quantize_activation"],
+    anchors=["tensor/qweight.py:quantize_weight",
+             "calibrate.py:Calibration.__enter__",
+             "tensor/qactivation.py:quantize_activation",
+             "calibrate.py:absmax_scale",
+             "calibrate.py:Calibration.calibrate_output",
+             "tensor/optimizers/absmax_optimizer.py:AbsmaxOptimizer.optimize",
+             "tensor/optimizers/max_optimizer.py:MaxOptimizer.optimize"],
     rule="case = (A) weight tensor assembled from degenerate row/group classes {zeros, constant, one-sided, offset, "
          "subnormal, tiny, near dtype max, mixed, single non-zero, heavy tail} in pairs x six qtypes x axis x group size "
          "x dtype, (B) calibration sequence containing zero/constant/tiny/huge batches followed by ordinary inference "
